@@ -478,6 +478,9 @@ impl Sys {
             }
             Ev::Spurious(t) => {
                 // no model effect: a poll without a wakeup must be inert
+                if let Tid::Op(_) = t {
+                    self.m.spurious_op();
+                }
                 self.w.poll_task(t);
             }
             Ev::Deliver(p) => {
@@ -512,6 +515,7 @@ impl Sys {
             }
             Ev::Eof => {
                 self.m.eof = true;
+                self.m.input_arrived();
                 self.w.eof();
             }
             Ev::PartialThenEof(p, n) => {
@@ -519,10 +523,12 @@ impl Sys {
                 let n = n.min(bytes.len() - 1).max(1);
                 self.w.deliver(bytes[..n].to_vec());
                 self.m.eof = true;
+                self.m.input_arrived();
                 self.w.eof();
             }
             Ev::ReadErr => {
                 self.m.read_err = true;
+                self.m.input_arrived();
                 self.w.read_error();
             }
             Ev::WriteErr => {
